@@ -67,7 +67,7 @@ func (s *server) ListSlots() (slots []string, err error) {
 	}
 	for _, line := range strings.Split(string(output), "\n") {
 		// Expect to find a line like "Slot 9a:"
-		if len(line) >= 6 && line[:4] == "Slot" {
+		if len(line) >= 7 && line[:4] == "Slot" {
 			slots = append(slots, line[5:7])
 		}
 	}
